@@ -120,6 +120,36 @@ func wazeroFrame(skip int) string {
 	}
 }
 
+// wazeroFrameLine is wazeroFrame plus the text of the panicking source line, so that two different
+// out-of-range accesses in one (large) function get different signatures, stable against line shifts.
+func wazeroFrameLine(skip int) string {
+	pcs := make([]uintptr, 64)
+	n := runtime.Callers(skip, pcs)
+	frames := runtime.CallersFrames(pcs[:n])
+	for {
+		fr, more := frames.Next()
+		if strings.Contains(fr.Function, "tetratelabs/wazero/") && !strings.Contains(fr.Function, "wazero/verif/") {
+			s := shortFunc(fr.Function) + lhsOfMake(fr.File, fr.Line)
+			lhsOfMake(fr.File, fr.Line) // fills srcCache
+			file := fr.File
+			if r, ok := overlayMap[file]; ok && r != "" {
+				file = r
+			}
+			if ls := srcCache[file]; fr.Line >= 1 && fr.Line-1 < len(ls) {
+				t := strings.Join(strings.Fields(ls[fr.Line-1]), " ")
+				if len(t) > 70 {
+					t = t[:70]
+				}
+				s += "@`" + t + "`"
+			}
+			return s
+		}
+		if !more {
+			return "unknown"
+		}
+	}
+}
+
 func shortFunc(f string) string {
 	f = strings.TrimPrefix(f, "github.com/tetratelabs/wazero/")
 	if i := strings.LastIndexByte(f, '/'); i >= 0 {
@@ -181,7 +211,7 @@ func (h *harness) compile(e, f int, b []byte) (r compileRes) {
 	rt := h.rt(e, f)
 	defer func() {
 		if p := recover(); p != nil {
-			r = compileRes{res: "panic", detail: wazeroFrame(3), msg: normalize(fmt.Sprint(p), 120)}
+			r = compileRes{res: "panic", detail: wazeroFrameLine(3), msg: normalize(fmt.Sprint(p), 120)}
 		}
 	}()
 	cm, err := rt.CompileModule(h.ctx, b)
